@@ -755,7 +755,11 @@ func TestGrid(t *testing.T) {
 			kase{delayMs: 0, pauseMs: 300, concurrent: 1, childCaller: true, stopCont: true},
 			kase{delayMs: 0, pauseMs: 300, concurrent: 1, stopCont: true},
 			kase{delayMs: 5, pauseMs: 0, concurrent: 1, childCaller: true, stopAfterDone: true},
-			kase{delayMs: 5, pauseMs: 40, concurrent: 1, stopAfterDone: true})
+			kase{delayMs: 5, pauseMs: 40, concurrent: 1, stopAfterDone: true},
+			kase{delayMs: 0, pauseMs: 150, concurrent: 1, childCaller: true, stopAfterDone: true},
+			kase{delayMs: 40, pauseMs: 5, concurrent: 1, stopAfterDone: true, doneFrom: 1},
+			kase{delayMs: 0, pauseMs: 0, concurrent: 1, childCaller: true, stopAfterDone: true, relativeArgv0: true},
+			kase{delayMs: 150, pauseMs: 0, concurrent: 1, stopAfterDone: true})
 		for _, k := range extra {
 			if msg := runCase(k); msg != "" {
 				if strings.HasPrefix(msg, "harness:") {
